@@ -116,6 +116,8 @@ def _r5(ctx, pkg):
                 good = attrs and e.attr == "elements" and sp.attr == "species" and ast.unparse(e.value) == ast.unparse(sp.value)
                 # understood and wrong: two plain attributes that are not .elements / .species of one object; anything else (a call, a
                 # local bound more than once, ..) is not read here
+                # (understood: the two arguments are the .elements / .species attributes -- swapped, or of two different objects)
+                attrs = attrs and {e.attr, sp.attr} <= {"elements", "species"}
                 _verdict(ctx, good, attrs, "R5", f"{f.rsplit('/', 1)[1]}:NetworkInfo(elements, species)", (f, c.lineno), "elements and species of the same network are handed to the generator",
                          expected="NetworkInfo(network.elements, network.species, ...)", found=f"{ast.unparse(e) if e else None}, {ast.unparse(sp) if sp else None}")
     ctx.floor("R5", "NetworkInfo constructions", n, 2)
@@ -143,6 +145,35 @@ def _understood(*vals, lists=()) -> bool:
             if x[0] == "meth" and x[2] not in _STR_METHODS:
                 return False
     return True
+
+
+def _count_atoms(c, pol, is_count):
+    """A test on element counts (non-negative integers) as atomic truthiness tests: `n > 0`, `n != 0`, `n >= 1`, `0 < n` are `n`;
+    `n == 0`, `n < 1` are `not n`; a true product / min(..) of counts is every factor true.  -> [(condition, polarity)]"""
+    if c[0] == "cmp" and len(c[1]) == 1 and len(c[2]) == 2:
+        op, (a, b) = c[1][0], c[2]
+        flip = {"Gt": "Lt", "Lt": "Gt", "GtE": "LtE", "LtE": "GtE", "Eq": "Eq", "NotEq": "NotEq"}
+        if a[0] == "const" and op in flip:
+            a, b, op = b, a, flip[op]
+        if is_count(a) and b[0] == "const":
+            if (op, b[1]) in (("Gt", 0), ("NotEq", 0), ("GtE", 1)):
+                return _count_atoms(a, pol, is_count)
+            if (op, b[1]) in (("Eq", 0), ("Lt", 1), ("LtE", 0)):
+                return _count_atoms(a, not pol, is_count)
+    if pol and c[0] == "binop" and c[1] == "Mult" and is_count(c[2]) and is_count(c[3]):
+        return _count_atoms(c[2], True, is_count) + _count_atoms(c[3], True, is_count)
+    if pol and c[0] == "call" and c[1] == ("global", "min") and c[2] and not c[3] and all(is_count(a) for a in c[2]):
+        return [x for a in c[2] for x in _count_atoms(a, True, is_count)]
+    if c[0] == "call" and c[1] == ("global", "bool") and len(c[2]) == 1 and not c[3]:
+        return _count_atoms(c[2][0], pol, is_count)
+    return [(c, pol)]
+
+
+def _is_count(v) -> bool:
+    """an element count: <species>.element_count.get(<name>, 0) (products of counts are counts)"""
+    if v[0] == "meth" and v[2] == "get" and v[1][0] == "attr" and v[1][2] == "element_count" and len(v[3]) == 2 and v[3][1] == ("const", 0):
+        return True
+    return v[0] == "binop" and v[1] == "Mult" and _is_count(v[2]) and _is_count(v[3])
 
 
 def _verdict(ctx, ok, sure, rule, key, where, msg, expected=None, found=None):
@@ -183,6 +214,14 @@ def _over_elements(it, ELEMS):
         mm = as_map(x) if x[0] in ("comp", "copy", "attr", "param") else None
         return bool(mm) and mm[2] == ELEMS and not mm[3]
     b = match(("call", ("global", "enumerate"), (V("s"),), ()), it)
+    if b:
+        z = b["s"]
+        if z[0] == "call" and z[1] == ("global", "zip") and z[2] and not z[3]:
+            return all(view(a) for a in z[2])          # enumerate(zip(names, elements)): the same positions
+        return view(z)
+    # a loop by position, `for k in range(len(<such a view>))`: the k-th iteration stands at position k (valueflow.simp reads X[k] of
+    # a one-to-one view X of the same list as X's map of the list's element at that position)
+    b = match(("call", ("global", "range"), (("call", ("global", "len"), (V("s"),), ()),), ()), it)
     if b:
         return view(b["s"])
     if it[0] == "call" and it[1] == ("global", "zip") and it[2] and not it[3]:
@@ -294,6 +333,57 @@ def _r7_replacement_survives(ctx, pkg):
     ctx.floor("R7", "library functions scanned", n, 180)
 
 
+def _result_lists_as_loops(fn):
+    """The rule reads the two result lists (and the term list of one matrix entry) as lists filled by `append` inside loops.  A list
+    of that role written as a comprehension -- `renorm = [g(spec) for spec in species]`, `terms = [f".." for spec in species if ..]` --
+    is rewritten as the loop it abbreviates (`X = []` + `for ..: if ..: X.append(..)`): by role, (a) a local handed to RenormContent(..),
+    (b) a local joined with " + " inside a nest of two loops.  Other comprehensions (names, counts, contributions) stay values."""
+    roles = set()
+    for c in ast.walk(fn):
+        if isinstance(c, ast.Call) and ast.unparse(c.func).split(".")[-1] == "RenormContent":
+            roles |= {a.id for a in list(c.args) + [k.value for k in c.keywords] if isinstance(a, ast.Name)}
+
+    def joined(node, depth):
+        for ch in ast.iter_child_nodes(node):
+            if isinstance(ch, (ast.FunctionDef, ast.AsyncFunctionDef, ast.Lambda, ast.ClassDef)):
+                continue
+            if depth >= 2 and isinstance(ch, ast.Call) and isinstance(ch.func, ast.Attribute) and ch.func.attr == "join" and isinstance(ch.func.value, ast.Constant) \
+                    and ch.func.value.value == " + " and ch.args:
+                roles.update(x.id for x in ast.walk(ch.args[0]) if isinstance(x, ast.Name))
+            joined(ch, depth + (1 if isinstance(ch, ast.For) else 0))
+    joined(fn, 0)
+
+    class T(ast.NodeTransformer):
+        def visit_Assign(self, st):
+            if not (len(st.targets) == 1 and isinstance(st.targets[0], ast.Name) and st.targets[0].id in roles and isinstance(st.value, ast.ListComp)):
+                return st
+            x = st.targets[0].id
+            body = ast.Expr(value=ast.Call(func=ast.Attribute(value=ast.Name(id=x, ctx=ast.Load()), attr="append", ctx=ast.Load()), args=[st.value.elt], keywords=[]))
+            for g in reversed(st.value.generators):
+                if g.is_async:
+                    return st
+                for c in reversed(g.ifs):
+                    body = ast.If(test=c, body=[body], orelse=[])
+                body = ast.For(target=g.target, iter=g.iter, body=[body], orelse=[])
+            for n in ast.walk(body):
+                if isinstance(n, (ast.Name, ast.Tuple, ast.List)) and isinstance(getattr(n, "ctx", None), ast.Store):
+                    pass
+            new = [ast.Assign(targets=[ast.Name(id=x, ctx=ast.Store())], value=ast.List(elts=[], ctx=ast.Load())), body]
+            for n in new:
+                ast.copy_location(n, st)
+                ast.fix_missing_locations(n)
+            return new
+
+        def visit_FunctionDef(self, n):
+            if n is fn:
+                self.generic_visit(n)
+            return n
+        visit_Lambda = visit_ClassDef = visit_AsyncFunctionDef = lambda self, n: n
+    if roles:
+        T().visit(fn)
+    return fn
+
+
 def _renorm_flow(pkg):
     """(function, value reconstruction) of TemplateLoader._prepare_renorm_content, spelling differences removed"""
     # helpers the method may have been split into (one matrix entry, one factor, ...) are put back first
@@ -302,7 +392,7 @@ def _renorm_flow(pkg):
     # enumerate loops they abbreviate
     import copy
     from ..normalize import index_loops_to_enumerate
-    fn = index_loops_to_enumerate(copy.deepcopy(fn))
+    fn = _result_lists_as_loops(index_loops_to_enumerate(copy.deepcopy(fn)))
 
     # small loop-free helpers the values pass through (a method of the class, a function of this module or one imported from another
     # module of the package) are read as what they return
@@ -371,10 +461,23 @@ def _r1_r4(ctx, pkg):
     ei, ej = ("elem", ELEMS, Li.id), ("elem", ELEMS, Lj.id)
     v = simp(mf.value)
     b = match(("join", ("const", " + "), ("acc", V("t"))), v)
+    zero_in_join = False
+    if not b:
+        # `" + ".join(["0.0", *terms])` / `["0.0"] + terms`: the same text as a term list that starts with "0.0"
+        b = match(("join", ("const", " + "), ("list", (("const", V("z")), ("star", ("acc", V("t")))))), v)
+        if b and str(b["z"]).strip() in ("0.0", "0", "0."):
+            zero_in_join = True
+        else:
+            b = None
+    mguards = [(c, p) for c, p in mf.guards if not vacuous_guard(simp(c), p, its)]
     # understood and wrong: entries appended under a condition (positions shift), or joined with another separator
     # ... or the sum is reworked afterwards by string operations (text substitution on a generated expression, a wrapper)
     accs = {x[1] for x in walk(v) if isinstance(x, tuple) and len(x) == 2 and x[0] == "acc"}
-    _verdict(ctx, bool(b) and not mf.guards, bool(b and mf.guards) or (not b and len(accs) == 1 and _understood(v, lists=accs)), "R1", "matrix:sum", (FILE, mf.line),
+    # (the term list joined with " + " must stand INSIDE what is appended -- wrapped, edited as text -- or be joined with another separator)
+    reworked = not b and len(accs) == 1 and _understood(v, lists=accs) and (
+        (v[0] == "join" and v[1][0] == "const" and v[1] != ("const", " + ") and v[2][0] == "acc") or
+        (v[0] != "join" and contains(v, lambda t: isinstance(t, tuple) and len(t) == 3 and t[0] == "join" and t[1] == ("const", " + ") and t[2][0] == "acc")))
+    _verdict(ctx, bool(b) and not mguards, bool(b and mguards) or reworked, "R1", "matrix:sum", (FILE, mf.line),
              "entry (i, j) is the ' + '-joined list of its terms, appended unconditionally", expected="' + '.join(terms)",
              found=show(v)[:160] + (f" under {len(mf.guards)} guard(s)" if mf.guards else ""))
     if not b and len(accs) != 1:
@@ -383,9 +486,12 @@ def _r1_r4(ctx, pkg):
     tin = [f for f in fl.facts if f.kind == "init" and f.target == tname]
     in_ij = len(tin) == 1 and tuple(l.id for l in tin[0].loops) == (Li.id, Lj.id)
     zero = len(tin) == 1 and tin[0].value[0] == "list" and len(tin[0].value[1]) == 1 and tin[0].value[1][0][0] == "const" and str(tin[0].value[1][0][1]).strip() in ("0.0", "0", "0.", "0.0e0")
+    if zero_in_join:
+        # the "0.0" is put in front where the list is joined: the list itself starts empty
+        zero = len(tin) == 1 and tin[0].value == ("list", ())
     # understood and wrong: one list shared by several entries (created outside the (i, j) loops), or an entry that starts empty (an
     # element pair no species couples would print nothing)
-    _verdict(ctx, in_ij and zero and not tin[0].guards, len(tin) == 1 and tin[0].value[0] == "list" and ((not in_ij and len(tin[0].loops) < 2) or (in_ij and not tin[0].value[1])),
+    _verdict(ctx, in_ij and zero and not tin[0].guards, len(tin) == 1 and tin[0].value[0] == "list" and ((not in_ij and len(tin[0].loops) < 2) or (in_ij and not tin[0].value[1] and not zero_in_join)),
              "R1", "matrix:terms-init", (FILE, tin[0].line if tin else mf.line),
              "the term list is re-created as ['0.0'] for every (i, j)", found="; ".join(show(f.value) + f" in {len(f.loops)} loops" for f in tin))
     tap = [f for f in fl.facts if f.kind == "append" and f.target == tname]
@@ -432,7 +538,8 @@ def _r1_r4(ctx, pkg):
     _verdict(ctx, term_ok, sure, "R1", "matrix:term", (FILE, tf.line),
              "term = (c_si * c_sj * A_j) * ab[IDX_<alias of s>] / A_s / Hnuclei with c from the row/column element names and A_j from the column element",
              expected="(ci*cj*elements[j].A) * ab[IDX_{spec.alias}] / {spec.A} / Hnuclei", found=detail[:300])
-    g = [(simp(c), p) for c, p in tf.guards]
+    from .c13 import vacuous_guard
+    g = [x for c, p in tf.guards if not vacuous_guard(simp(c), p, [simp(l.iter) for l in tf.loops]) for x in _count_atoms(simp(c), p, _is_count)]
     # guards arrive as atomic conditions in positive form (valueflow.split_guard): {not electron, ci, cj} in any spelling
     g_ok = {(repr(c), p) for c, p in g} == {(repr(("attr", s, "is_electron")), False), (repr(ci), True), (repr(cj), True)}
     _verdict(ctx, g_ok, _understood(*[c for c, _ in g]), "R1", "matrix:term-guard", (FILE, tf.line), "a term exists iff the species is not the electron and contains both elements",
@@ -449,7 +556,7 @@ def _r1_r4(ctx, pkg):
         fvalue = ("ifexp", simp(t_.guards[0][0]), simp(t_.value), simp(e_.value))
         facs = [e_]
     elif len(facs) == 1:
-        fguards = facs[0].guards
+        fguards = tuple((c, p) for c, p in facs[0].guards if not vacuous_guard(simp(c), p, [simp(l.iter) for l in facs[0].loops]))
     if len(facs) != 1 or len(facs[0].loops) != 1:
         ctx.unrec("R1", "factor:site", W, f"expected one append to `{fac_name}` in the species loop, found {[(f.line, len(f.loops)) for f in facs]}")
         return
@@ -466,17 +573,24 @@ def _r1_r4(ctx, pkg):
         return
     s2 = ("elem", SPEC, Lf.id)
     v = simp(fvalue if fvalue is not None else ff.value)
+    for _ in range(2):
+        if v[0] in ("ifexp", "phi") and len(v) == 4 and v[1][0] == "unop" and v[1][1] == "Not":
+            v = (v[0], v[1][2], v[3], v[2])         # `a if not c else b` is `b if c else a`
     bE = match(("ifexp", ("attr", s2, "is_electron"), V("one"), V("rest")), v)
     e_ok = bool(bE) and bE["one"] in (("const", 1.0), ("const", "1.0"), ("const", 1))
     # understood and wrong: no special case for the electron at all (the plain sum for every species), or another constant for it
-    e_sure = bool(match(("join", ("const", " + "), V("seq")), v)) or (bool(bE) and bE["one"][0] == "const")
+    e_sure = bool(match(("join", ("const", " + "), V("seq")), v)) or (bool(bE) and bE["one"][0] in ("const", "join"))      # (.. or the sum itself, on the electron's arm)
     _verdict(ctx, e_ok, e_sure, "R1", "factor:electron", (FILE, ff.line), "the electron's factor is 1.0 (left untouched)", found=show(v)[:100])
     rest = bE["rest"] if bE else v
     b = match(("join", ("const", " + "), V("seq")), rest)
     # understood and wrong: the sum is reworked afterwards (clamped, wrapped in a call, edited as text): the species is no longer scaled
     # by the coefficient the matrix was built for
     accs = {x[1] for x in walk(rest) if isinstance(x, tuple) and len(x) == 2 and x[0] == "acc"}
-    _verdict(ctx, bool(b), not b and _understood(rest, lists=accs), "R1", "factor:sum", (FILE, ff.line), "the factor of a species is the plain ' + '-joined sum of its contributions",
+    freworked = not b and _understood(rest, lists=accs) and (
+        (rest[0] == "join" and rest[1][0] == "const" and rest[1] != ("const", " + ")) or
+        (rest[0] != "join" and (bool(bE) or not contains(rest, lambda t: t == ("attr", s2, "is_electron")))
+         and contains(rest, lambda t: isinstance(t, tuple) and len(t) == 3 and t[0] == "join" and t[1] == ("const", " + "))))
+    _verdict(ctx, bool(b), freworked, "R1", "factor:sum", (FILE, ff.line), "the factor of a species is the plain ' + '-joined sum of its contributions",
              expected="' + '.join(contributions)", found=show(rest)[:200])
     if b:
         # the list of contributions: a comprehension, or a list filled by a loop over the elements
@@ -486,6 +600,7 @@ def _r1_r4(ctx, pkg):
         detail = show(b["seq"])[:200]
         if mm:
             bv, body, base, ifs = mm
+            ifs = tuple(c if pol else ("unop", "Not", c) for c0 in ifs for c, pol in _count_atoms(c0, True, _is_count))      # `if c > 0` is `if c`
             cj2 = COUNT(s2, bv)
             lw = lower(body)
             hv = {k: (x[1] if x[0] == "fmt" else x) for k, x in lw.holes.items()}
@@ -764,10 +879,17 @@ def _r2_template(ctx, label, rel, pat):
     # RenormAbundance
     key = f"{label}:RenormAbundance"
     sts = _statements(_top_items(sk, "RenormAbundance"), r"ab\s*\[\s*\x00(\d+)\x00\s*\]\s*=\s*ab\s*\[\s*\x00(\d+)\x00\s*\]\s*\*\s*\(\s*\x00(\d+)\x00\s*\)\s*;", split_concat=True, tree=ctx.tree, rel=rel)
+    literal_prefix = False
+    if not sts:
+        # the prefix written as text in front of the printed alias: `ab[IDX_{{ spec.alias }}]` prints what `{{ spec.alias | prefix("IDX_") }}` prints
+        sts = _statements(_top_items(sk, "RenormAbundance"), r"ab\s*\[\s*IDX_\x00(\d+)\x00\s*\]\s*=\s*ab\s*\[\s*IDX_\x00(\d+)\x00\s*\]\s*\*\s*\(\s*\x00(\d+)\x00\s*\)\s*;", split_concat=True, tree=ctx.tree, rel=rel)
+        literal_prefix = bool(sts)
     if len(sts) != 1 or len(sts[0][1]) != 1:
         ctx.unrec("R2", key, (rel, 0), f"expected one statement `ab[IDX] = ab[IDX] * (factor);` inside one loop of RenormAbundance, found {len(sts)}")
         return
     (a, b, f), stack, line = sts[0]
+    if literal_prefix:
+        a, b = (("filter", "prefix", x, (("const", "IDX_"),), ()) for x in (a, b))
     it, seq = stack[0]
     idx = ("attr", ("name", "loop@1"), "index0")
     want_idx = _norm(("filter", "prefix", ("attr", ("item", SPECIES_T, idx), "alias"), (("const", "IDX_"),), ()))
@@ -808,7 +930,7 @@ def _r3(ctx):
         # understood and wrong: a required call is absent from the function, or all four are there in another order; a call that is there
         # with other arguments than the ones read here is not recognised
         called = [bool(re.search(rf"\b{nm}\s*\(", body)) for nm in ("InitRenorm", "SUNLinSolSetup", "SUNLinSolSolve", "RenormAbundance")]
-        _verdict(ctx, all(p >= 0 for p in pos) and pos == sorted(pos), not all(called) or all(p >= 0 for p in pos), "R3", "cvode:Renorm:order", (CV_MAIN, 0),
+        _verdict(ctx, all(p >= 0 for p in pos) and pos == sorted(pos), (not all(called) and "__HOLE__" not in body) or all(p >= 0 for p in pos), "R3", "cvode:Renorm:order", (CV_MAIN, 0),
                  "InitRenorm(ab, A) -> SUNLinSolSetup -> SUNLinSolSolve -> RenormAbundance", found=str(pos))
         m = re.search(r"SUNLinSolSolve\s*\(\s*(\w+)\s*,\s*(\w+)\s*,\s*(\w+)\s*,\s*(\w+)\s*,", body)
         decl = dict((mm.group(1), mm.group(2)) for mm in re.finditer(r"(?:N_Vector\s+|[;{}]\s*)(\w+)\s*=\s*(N_V[^;]+);", body))
@@ -838,7 +960,7 @@ def _r3(ctx):
         body = sk.plain(fs[0].body)
         pos = _order(body, [r"rptr\s*\[\s*i\s*\]\s*=\s*ab_ref_\s*\[\s*i\s*\]", r"\bInitRenorm\s*\(\s*ab\s*,\s*A\s*\)", r"\blu_factorize\s*\(\s*A\s*,", r"\blu_substitute\s*\(\s*A\s*,\s*\w+\s*,\s*rptr\s*\)", r"\bRenormAbundance\s*\(\s*rptr\s*,\s*ab\s*\)"])
         called = [bool(re.search(rf"\b{nm}\s*\(", body)) for nm in ("InitRenorm", "lu_factorize", "lu_substitute", "RenormAbundance")]
-        _verdict(ctx, all(p >= 0 for p in pos) and pos == sorted(pos), not all(called) or all(p >= 0 for p in pos), "R3", "odeint:Renorm:order", (OD_MAIN, 0),
+        _verdict(ctx, all(p >= 0 for p in pos) and pos == sorted(pos), (not all(called) and "__HOLE__" not in body) or all(p >= 0 for p in pos), "R3", "odeint:Renorm:order", (OD_MAIN, 0),
                  "rptr := copy of ab_ref_ -> InitRenorm(ab, A) -> lu_factorize(A) -> lu_substitute(A, pm, rptr) -> RenormAbundance(rptr, ab)", found=str(pos))
         copy_ok = bool(re.search(r"vector_type\s+rptr\s*\(\s*NELEMENTS\s*\)", body)) and bool(re.search(r"for\s*\(\s*int\s+i\s*=\s*0\s*;\s*i\s*<\s*NELEMENTS\s*;", body))
         # (a copy spelled another way -- std::copy, a constructor from a range -- is not read here)
@@ -852,6 +974,9 @@ def _r3(ctx):
             body = sk.plain(fs[0].body)
             ra = [m_.start() for m_ in re.finditer(r"\bRenormAbundance\s*\(", body)]
             early = [m_.start() for m_ in re.finditer(r"\breturn\s+NAUNET_SUCCESS\b", body) if ra and m_.start() < ra[0]]
+            if not ra and "__HOLE__" in body:
+                ctx.unrec("R3", f"{label}:Renorm:no early success", (rel, 0), "no call of RenormAbundance in the text of Naunet::Renorm, which has pieces this rule could not resolve")
+                continue
             ctx.check(bool(ra) and not early, "R3", f"{label}:Renorm:no early success", (rel, 0),
                       "success is returned only after RenormAbundance" if ra and not early else
                       "Renorm can return NAUNET_SUCCESS before RenormAbundance was called: the abundances are left as they are although their element totals differ from the reference",
@@ -868,7 +993,7 @@ def _r3(ctx):
         elems = set(re.findall(r"IDX_ELEM_\w+", raw))
         body = re.sub(r"\s+", "", raw)
         ok = "returnGetElementAbund(y,IDX_ELEM_H);" in body and elems == {"IDX_ELEM_H"} and body.count("GetElementAbund(") == 1
-        _verdict(ctx, ok, bool(elems - {"IDX_ELEM_H"}) or body.count("GetElementAbund(") > 1 or not elems, "R3", "GetHNuclei = element H", (PHYS_, 0),
+        _verdict(ctx, ok, bool(elems - {"IDX_ELEM_H"}) or body.count("GetElementAbund(") > 1 or (not elems and "__HOLE__" not in raw), "R3", "GetHNuclei = element H", (PHYS_, 0),
                   "GetHNuclei(y) is GetElementAbund(y, IDX_ELEM_H): the basis InitRenorm divides by is the one SetReferenceAbund stores ratios against" if ok else
                   f"GetHNuclei is not the abundance of element H alone (elements used: {sorted(elems)}): InitRenorm divides by it while SetReferenceAbund(ref, 0) stores ref[i]/ref[IDX_ELEM_H] -- "
                   "the two bases differ and Renorm is no longer the identity on conserving abundances",
@@ -940,6 +1065,13 @@ MUTANTS = [
     {"name": "network-resets-species-tables", "file": "naunet/network.py", "old": "        if self._known_elements or self._known_pseudo_elements:\n            Species.set_known_elements(self._known_elements)\n            Species.set_known_pseudoelements(self._known_pseudo_elements)\n\n        allowed_species = allowed_species or []",
      "new": "        if self._known_elements or self._known_pseudo_elements:\n            Species.reset()\n            Species.set_known_elements(self._known_elements)\n            Species.set_known_pseudoelements(self._known_pseudo_elements)\n\n        allowed_species = allowed_species or []", "rules": ["R7"]},
     {"name": "loader-clears-replacement", "file": FILE, "old": "        renorm = self._prepare_renorm_content(info)\n", "new": "        Species._replacement = {}\n        renorm = self._prepare_renorm_content(info)\n", "rules": ["R7"]},
+    # hardening wave 4: a count table read by position, the same defects inside the new spellings
+    {'name': 'count-table-position-loops-row-mass', 'file': FILE, 'old': '        matrix = []\n        for iele, einame in enumerate(elemnames):\n            for jele, ejname in enumerate(elemnames):\n                terms = ["0.0"]\n                for ispec, spec in enumerate(species):\n                    ci = spec.element_count.get(einame, 0)\n                    cj = spec.element_count.get(ejname, 0)\n                    if not spec.is_electron and ci and cj:\n                        terms.append(\n                            f"{(ci * cj * elements[jele].A)} * ab[IDX_{spec.alias}] / {spec.A} / Hnuclei"\n                        )\n                matrix.append(" + ".join(terms))\n', 'new': '        nelem = len(elemnames)\n        speccounts = [[spec.element_count.get(ename, 0) for ename in elemnames] for spec in species]\n        matrix = []\n        for iele in range(nelem):\n            for jele in range(nelem):\n                terms = ["0.0"]\n                for spec, counts in zip(species, speccounts):\n                    ci, cj = counts[iele], counts[jele]\n                    if spec.is_electron or not (ci and cj):\n                        continue\n                    terms.append(\n                        f"{(ci * cj * elements[iele].A)} * ab[IDX_{spec.alias}] / {spec.A} / Hnuclei"\n                    )\n                matrix.append(" + ".join(terms))\n', 'rules': ['R1']},
+    {'name': 'terms-start-empty-no-zero', 'edits': [{'file': FILE, 'old': '                terms = ["0.0"]\n', 'new': '                terms = []\n'}], 'rules': ['R1']},
+    {'name': 'factor-reversed-conditional-electron-gets-sum', 'file': FILE, 'old': 'renorm.append(1.0 if spec.is_electron else " + ".join(factor))', 'new': 'renorm.append(1.0 if not spec.is_electron else " + ".join(factor))', 'rules': ['R1']},
+    {'name': 'abundance-literal-prefix-wrong-species', 'file': OD_RENORM, 'old': '    {% set specidx = spec.alias | prefix("IDX_") -%}\n    ab[{{ specidx }}] = ab[{{ specidx }}] * ({{ fac }});\n', 'new': '    ab[IDX_{{ spec.alias }}] = ab[IDX_{{ network.species[0].alias }}] * ({{ fac }});\n', 'rules': ['R2']},
+    {'name': 'terms-comprehension-row-mass', 'file': FILE, 'old': '                terms = ["0.0"]\n                for ispec, spec in enumerate(species):\n                    ci = spec.element_count.get(einame, 0)\n                    cj = spec.element_count.get(ejname, 0)\n                    if not spec.is_electron and ci and cj:\n                        terms.append(\n                            f"{(ci * cj * elements[jele].A)} * ab[IDX_{spec.alias}] / {spec.A} / Hnuclei"\n                        )\n                matrix.append(" + ".join(terms))\n', 'new': '                terms = [\n                    f"{(spec.element_count.get(einame, 0) * spec.element_count.get(ejname, 0) * elements[iele].A)} * ab[IDX_{spec.alias}] / {spec.A} / Hnuclei"\n                    for spec in species\n                    if not spec.is_electron and spec.element_count.get(einame, 0) and spec.element_count.get(ejname, 0)\n                ]\n                matrix.append(" + ".join(["0.0"] + terms))\n', 'rules': ['R1']},
+    {'name': 'terms-comprehension-without-zero', 'file': FILE, 'old': '                terms = ["0.0"]\n                for ispec, spec in enumerate(species):\n                    ci = spec.element_count.get(einame, 0)\n                    cj = spec.element_count.get(ejname, 0)\n                    if not spec.is_electron and ci and cj:\n                        terms.append(\n                            f"{(ci * cj * elements[jele].A)} * ab[IDX_{spec.alias}] / {spec.A} / Hnuclei"\n                        )\n                matrix.append(" + ".join(terms))\n', 'new': '                terms = [\n                    f"{(spec.element_count.get(einame, 0) * spec.element_count.get(ejname, 0) * elements[jele].A)} * ab[IDX_{spec.alias}] / {spec.A} / Hnuclei"\n                    for spec in species\n                    if not spec.is_electron and spec.element_count.get(einame, 0) and spec.element_count.get(ejname, 0)\n                ]\n                matrix.append(" + ".join(terms))\n', 'rules': ['R1']},
 ]
 BENIGN = [
     {"name": "coefficient-commuted", "file": FILE, "old": "{(ci * cj * elements[jele].A)}", "new": "{(elements[jele].A * cj * ci)}"},
@@ -976,4 +1108,14 @@ BENIGN = [
         {"file": FILE, "old": "from importlib.metadata import version\n", "new": "from importlib.metadata import version\nfrom collections import namedtuple\n"},
         {"file": FILE, "old": "class TemplateLoader:\n", "new": "_ERef = namedtuple(\"_ERef\", [\"name\", \"atom\"])\n\n\nclass TemplateLoader:\n"},
         {"file": FILE, "old": "            counts = [spec.element_count.get(ename, 0) for ename in elemnames]\n            factor = [\n                f\"{c * elem.A} * rptr[IDX_ELEM_{ename}] / {spec.A}\"\n                for c, ename, elem in zip(counts, elemnames, elements)\n                if c\n            ]\n", "new": "            refs = [_ERef(nm, at) for nm, at in zip(elemnames, elements)]\n            factor = []\n            for ref in refs:\n                c = spec.element_count.get(ref.name, 0)\n                if c:\n                    factor.append(f\"{c * ref.atom.A} * rptr[IDX_ELEM_{ref.name}] / {spec.A}\")\n"}]},
+    # hardening wave 4: everyday spellings of the same loops, guards and conditionals
+    {'name': 'count-table-position-loops', 'file': FILE, 'old': '        matrix = []\n        for iele, einame in enumerate(elemnames):\n            for jele, ejname in enumerate(elemnames):\n                terms = ["0.0"]\n                for ispec, spec in enumerate(species):\n                    ci = spec.element_count.get(einame, 0)\n                    cj = spec.element_count.get(ejname, 0)\n                    if not spec.is_electron and ci and cj:\n                        terms.append(\n                            f"{(ci * cj * elements[jele].A)} * ab[IDX_{spec.alias}] / {spec.A} / Hnuclei"\n                        )\n                matrix.append(" + ".join(terms))\n', 'new': '        nelem = len(elemnames)\n        speccounts = [[spec.element_count.get(ename, 0) for ename in elemnames] for spec in species]\n        matrix = []\n        for iele in range(nelem):\n            for jele in range(nelem):\n                terms = ["0.0"]\n                for spec, counts in zip(species, speccounts):\n                    ci, cj = counts[iele], counts[jele]\n                    if spec.is_electron or not (ci and cj):\n                        continue\n                    terms.append(\n                        f"{(ci * cj * elements[jele].A)} * ab[IDX_{spec.alias}] / {spec.A} / Hnuclei"\n                    )\n                matrix.append(" + ".join(terms))\n'},
+    {'name': 'guard-positive-counts', 'file': FILE, 'old': 'if not spec.is_electron and ci and cj:', 'new': 'if not spec.is_electron and ci > 0 and cj > 0:'},
+    {'name': 'guard-product-of-counts', 'file': FILE, 'old': 'if not spec.is_electron and ci and cj:', 'new': 'if not spec.is_electron and ci * cj:'},
+    {'name': 'zero-put-in-front-at-the-join', 'edits': [{'file': FILE, 'old': '                terms = ["0.0"]\n', 'new': '                terms = []\n'}, {'file': FILE, 'old': '                matrix.append(" + ".join(terms))\n', 'new': '                matrix.append(" + ".join(["0.0", *terms]))\n'}]},
+    {'name': 'factor-conditional-reversed', 'file': FILE, 'old': 'renorm.append(1.0 if spec.is_electron else " + ".join(factor))', 'new': 'renorm.append(" + ".join(factor) if not spec.is_electron else 1.0)'},
+    {'name': 'factor-filter-positive-count', 'file': FILE, 'old': '                if c\n', 'new': '                if c > 0\n'},
+    {'name': 'abundance-literal-prefix', 'file': OD_RENORM, 'old': '    {% set specidx = spec.alias | prefix("IDX_") -%}\n    ab[{{ specidx }}] = ab[{{ specidx }}] * ({{ fac }});\n', 'new': '    ab[IDX_{{ spec.alias }}] = ab[IDX_{{ spec.alias }}] * ({{ fac }});\n'},
+    {'name': 'terms-comprehension', 'file': FILE, 'old': '                terms = ["0.0"]\n                for ispec, spec in enumerate(species):\n                    ci = spec.element_count.get(einame, 0)\n                    cj = spec.element_count.get(ejname, 0)\n                    if not spec.is_electron and ci and cj:\n                        terms.append(\n                            f"{(ci * cj * elements[jele].A)} * ab[IDX_{spec.alias}] / {spec.A} / Hnuclei"\n                        )\n                matrix.append(" + ".join(terms))\n', 'new': '                terms = [\n                    f"{(spec.element_count.get(einame, 0) * spec.element_count.get(ejname, 0) * elements[jele].A)} * ab[IDX_{spec.alias}] / {spec.A} / Hnuclei"\n                    for spec in species\n                    if not spec.is_electron and spec.element_count.get(einame, 0) and spec.element_count.get(ejname, 0)\n                ]\n                matrix.append(" + ".join(["0.0"] + terms))\n'},
+    {'name': 'matrix-columns-enumerate-zip', 'file': FILE, 'old': '            for jele, ejname in enumerate(elemnames):\n', 'new': '            for jele, (ejname, ejelem) in enumerate(zip(elemnames, elements)):\n'},
 ]
